@@ -3,7 +3,7 @@ from .. import mgen
 
 ID = "C06"
 LEVEL = "exploration"
-RUNS = {"quick": 4000, "thorough": 40000}
+RUNS = {"quick": 5000, "thorough": 40000}
 RULE = ("seeded histories in which threads change state and affinity while publishing values through every tracking mode "
         "(always: ovni flush, kernel context switch, Nanos6 thread type; running: task id/type/rank, idle state, MPI function; "
         "active: all subsystems, marks); 1-3 models enabled per run (swarm); value changes and state/affinity changes are adjacent "
